@@ -1,5 +1,4 @@
 import sys
-import collections
 
 from datapackage import Package
 
@@ -17,21 +16,24 @@ def unstream(file=sys.stdin):
             return ejson.loads(line)
         return None
 
-    def res_reader():
+    def res_reader(state):
         while True:
             r = read()
             if r is not None:
                 yield r
             else:
+                state['ended'] = True
                 break
 
     def func(package):
         descriptor = read()
         yield Package(descriptor)
         for _ in descriptor.get('resources', []):
-            reader = res_reader()
-            yield reader
-            # skip what a later step left unread: the next resource starts after the separator
-            collections.deque(reader, maxlen=0)
+            state = dict(ended=False)
+            yield res_reader(state)
+            # skip what a later step left unread (also one that closed the iterator it was given):
+            # the next resource starts after the separator
+            while not state['ended']:
+                state['ended'] = read() is None
 
     return func
